@@ -2,6 +2,7 @@ CONSTANTS
   Exported = {"g", "r"}
   Others = {"x"}
   MaxLen = 3
+  MaxLen2 = 2
 INIT Init
 NEXT Next
 INVARIANTS VisibleExact NeverOthers OrderIrrelevant Emit
